@@ -21,9 +21,11 @@
    done-notification, `wg.Wait`, and that a failed / canceled node implies lastError or the cancel flag
    (DESIGN.md section 7: sc.lastError is modelled as written atomically with the node status).
 
-   `fx` selects the behaviour of Scheduler.Status: false = the pinned code (finding F8a: `finished` whenever no
-   node is running, no error is recorded and the run is not canceled - in particular BETWEEN two steps),
-   true = the candidate repair fixes/F8a.diff (not `finished` while a node has not started). *)
+   The model follows /repo after the repairs
+     b9e9fa2  Scheduler.Status answers running, not finished, while some node has not finished (finding F8a), and
+     3aa388e  history readers skip a newest file that holds no parseable status (finding F7a).
+   Not repaired (still in the model): the snapshot goroutines evaluate Agent.Status before they take the writer's
+   lock (F8b/F8c). *)
 From Coq Require Import List Arith Bool PeanoNat.
 Import ListNotations.
 
@@ -44,13 +46,13 @@ Definition any_running (t : table) : bool := existsb (fun n => is_running (nst n
 Definition any_pending (t : table) : bool := existsb (fun n => is_none (nst n) || is_running (nst n)) t.
 
 (* Scheduler.Status, clause by clause (scheduler.go:323-337) *)
-Definition overall (fx canceled started err : bool) (t : table) : ostatus :=
+Definition overall (canceled started err : bool) (t : table) : ostatus :=
   if canceled && negb (all_succeed t) then OCancel            (* :324 *)
   else if negb started then ONone                             (* :327 *)
   else if any_running t then ORunning                         (* :330 *)
   else if err then OError                                     (* :333 *)
-  else if fx && any_pending t then ORunning                   (* fixes/F8a.diff; absent from the pinned code *)
-  else OSuccess.                                              (* :336 *)
+  else if any_pending t then ORunning                         (* :336-340, since b9e9fa2: some node has not finished *)
+  else OSuccess.                                              (* :341 *)
 
 (* ---- the abstract step scheduler ------------------------------------------------------------------ *)
 Inductive sphase := SInit | SLoop | SHandlers | SReturned.
@@ -167,10 +169,10 @@ Definition recv (s : sched) : option sched :=
 Record snap := mkSnap { s_ov : ostatus; s_tbl : table }.
 
 (* Agent.Status (agent.go:213-253); the arm at :219-222 (none while the graph is started => running) is kept *)
-Definition ov_of (fx : bool) (s : sched) : ostatus :=
-  let o := overall fx (canc s) (started s) (serr s) (tbl s) in
+Definition ov_of (s : sched) : ostatus :=
+  let o := overall (canc s) (started s) (serr s) (tbl s) in
   match o with ONone => if started s then ORunning else ONone | _ => o end.
-Definition snap_of (fx : bool) (s : sched) : snap := mkSnap (ov_of fx s) (tbl s).
+Definition snap_of (s : sched) : snap := mkSnap (ov_of s) (tbl s).
 
 Inductive sockst := SockAbsent | SockStale | SockLive.
 
@@ -230,13 +232,13 @@ Definition with_file (st : astate) (f : list snap) : astate :=
 Definition last_line (l : list snap) : option snap :=
   match rev l with [] => None | x :: _ => Some x end.
 
-Definition astep (fx : bool) (st : astate) (l : alabel) : option astate :=
+Definition astep (st : astate) (l : alabel) : option astate :=
   match l with
   | LOpen => match mp st with
              | MInit => Some (mkA (sc st) MOpened (fs st) (cp st) [] true (cfile st) false (sock st))
              | _ => None end
   | LWriteS0 => match mp st with
-                | MOpened => Some (with_mp (with_file st (append st (snap_of fx (sc st)))) MS0)
+                | MOpened => Some (with_mp (with_file st (append st (snap_of (sc st)))) MS0)
                 | _ => None end
   | LBind => match mp st with
              | MS0 => Some (mkA (sc st) MBound (fs st) (cp st) (file st) (orig st) (cfile st) (wclosed st) SockLive)
@@ -249,19 +251,19 @@ Definition astep (fx : bool) (st : astate) (l : alabel) : option astate :=
                | FSleep => if 3 <=? mrank (mp st)
                            then Some (with_fs st (if 6 <=? mrank (mp st) then FGone else FChecked)) else None
                | _ => None end
-  | LFsOv => match fs st with FChecked => Some (with_fs st (FOv (ov_of fx (sc st)))) | _ => None end
+  | LFsOv => match fs st with FChecked => Some (with_fs st (FOv (ov_of (sc st)))) | _ => None end
   | LFsTbl => match fs st with FOv o => Some (with_fs st (FComputed (mkSnap o (tbl (sc st))))) | _ => None end
   | LFsAppend => match fs st with FComputed s => Some (with_fs (with_file st (append st s)) FGone) | _ => None end
   (* for node := range done { Status(); Write } *)
   | LNotify => match cp st, recv (sc st) with
                | CIdle, Some s' => if 3 <=? mrank (mp st) then Some (with_cp (with_sc st s') CGot) else None
                | _, _ => None end
-  | LCOv => match cp st with CGot => Some (with_cp st (COv (ov_of fx (sc st)))) | _ => None end
+  | LCOv => match cp st with CGot => Some (with_cp st (COv (ov_of (sc st)))) | _ => None end
   | LCTbl => match cp st with COv o => Some (with_cp st (CComputed (mkSnap o (tbl (sc st))))) | _ => None end
   | LCAppend => match cp st with CComputed s => Some (with_cp (with_file st (append st s)) CIdle) | _ => None end
   (* the main thread after Schedule has returned *)
   | LFinalCompute => match mp st, sph (sc st) with
-                     | MBound, SReturned => Some (with_mp st (MFinalComputed (snap_of fx (sc st))))
+                     | MBound, SReturned => Some (with_mp st (MFinalComputed (snap_of (sc st))))
                      | _, _ => None end
   | LFinalAppend => match mp st with
                     | MFinalComputed s => Some (with_mp (with_file st (append st s)) MFinalWritten)
@@ -297,10 +299,10 @@ Definition init_sched (n : nat) : sched := mkSched (init_table n) false false SI
 Definition init (n : nat) (s0 : sockst) : astate :=
   mkA (init_sched n) MInit FSleep CIdle [] false None false s0.
 
-Fixpoint exec (fx : bool) (st : astate) (ls : list alabel) : option astate :=
+Fixpoint exec (st : astate) (ls : list alabel) : option astate :=
   match ls with
   | [] => Some st
-  | l :: r => match astep fx st l with Some st' => exec fx st' r | None => None end
+  | l :: r => match astep st l with Some st' => exec st' r | None => None end
   end.
 
 (* ---- what is reported ------------------------------------------------------------------------------- *)
@@ -311,14 +313,19 @@ Definition after_kill (st : astate) : astate :=
 
 Inductive pres := PNoData | PErr | PSnap (s : snap).
 
-(* ReadStatusToday on the newest run: the original and its twin carry the same time stamp, the original sorts first
-   (glob order, stable sort); ParseFile = last line, io.EOF on an empty file *)
+(* ReadStatusToday (since 3aa388e): the files of the newest stamp, the original before its twin (same time stamp; glob order,
+   stable sort), each parsed with ParseFile = last line; a file without a parseable status is SKIPPED; nothing left =>
+   ErrNoStatusData, which GetLatestStatus turns into the default status without an error.  (History of earlier runs is not
+   part of this model: a run killed before its first line leaves no trace, as a run killed before Open does.)
+   PErr stays in the result type because client.GetLatestStatus still has the arm; jsondb no longer produces it. *)
 Definition persisted (st : astate) : pres :=
-  if orig st then match last_line (file st) with Some s => PSnap s | None => PErr end
-  else match cfile st with
-       | Some l => match last_line l with Some s => PSnap s | None => PErr end
-       | None => PNoData
-       end.
+  match (if orig st then last_line (file st) else None) with
+  | Some s => PSnap s
+  | None => match cfile st with
+            | Some l => match last_line l with Some s => PSnap s | None => PNoData end
+            | None => PNoData
+            end
+  end.
 
 (* status.go:92-97 *)
 Definition correct (s : snap) : snap :=
@@ -337,9 +344,9 @@ Definition reported (n : nat) (alive : bool) (live : snap) (p : pres) : snap * b
 
 (* the socket answers iff a live process is bound to it *)
 Definition alive (st : astate) : bool := match sock st with SockLive => true | _ => false end.
-Definition live_answer (fx : bool) (st : astate) : snap := snap_of fx (sc st).
-Definition report (fx : bool) (n : nat) (st : astate) : snap * bool :=
-  reported n (alive st) (live_answer fx st) (persisted st).
+Definition live_answer (st : astate) : snap := snap_of (sc st).
+Definition report (n : nat) (st : astate) : snap * bool :=
+  reported n (alive st) (live_answer st) (persisted st).
 
 (* job.go:51-73: the daemon's Start *)
 Inductive guard := GRefusedErr | GRefusedRunning | GMinuteGuard.
@@ -356,19 +363,20 @@ Definition bind_ok (unlink_first : bool) (s : sockst) : bool :=
 (* ---- decidable premises of the partial theorems ------------------------------------------------------ *)
 Definition all_done_ok (t : table) : bool := all_succeed t.
 
-(* the scheduler state is in the window of F8a: Status says finished although a step is neither finished nor skipped *)
-Definition gap (fx : bool) (s : sched) : bool :=
-  match s_ov (snap_of fx s) with OSuccess => negb (all_succeed (tbl s)) | _ => false end.
+(* the window of finding F8a (closed by b9e9fa2, see Proofs.no_gap): Status says finished although a step is neither
+   finished nor skipped *)
+Definition gap (s : sched) : bool :=
+  match s_ov (snap_of s) with OSuccess => negb (all_succeed (tbl s)) | _ => false end.
 
 Definition computes (l : alabel) : bool :=
   match l with LWriteS0 | LFsOv | LCOv | LFinalCompute => true | _ => false end.      (* where Scheduler.Status is evaluated *)
 
 (* Scheduler.Status is never evaluated for a snapshot inside the window *)
-Fixpoint no_gap_snapshot (fx : bool) (st : astate) (ls : list alabel) : bool :=
+Fixpoint no_gap_snapshot (st : astate) (ls : list alabel) : bool :=
   match ls with
   | [] => true
-  | l :: r => (negb (computes l) || negb (gap fx (sc st))) &&
-              match astep fx st l with Some st' => no_gap_snapshot fx st' r | None => true end
+  | l :: r => (negb (computes l) || negb (gap (sc st))) &&
+              match astep st l with Some st' => no_gap_snapshot st' r | None => true end
   end.
 
 (* no snapshot computed earlier is still waiting for the writer's lock when Schedule returns (F8b/F8c) *)
@@ -376,9 +384,9 @@ Definition quiet (st : astate) : bool :=
   match fs st with FComputed _ | FOv _ => false | _ => true end &&
   match cp st with CComputed _ | COv _ => false | _ => true end.
 
-Fixpoint quiet_at_return (fx : bool) (st : astate) (ls : list alabel) : bool :=
+Fixpoint quiet_at_return (st : astate) (ls : list alabel) : bool :=
   match ls with
   | [] => true
   | l :: r => match l with LSched AReturn => quiet st | _ => true end &&
-              match astep fx st l with Some st' => quiet_at_return fx st' r | None => true end
+              match astep st l with Some st' => quiet_at_return st' r | None => true end
   end.
